@@ -235,13 +235,15 @@ def pytree_node_registry_get(  # noqa: C901
         )
 
     if cls is None:
-        namespaces = frozenset({namespace, ''})
         with __REGISTRY_LOCK:
-            registry = {
-                handler.type: handler
-                for handler in _NODETYPE_REGISTRY.values()
-                if handler.namespace in namespaces
-            }
+            handlers = tuple(_NODETYPE_REGISTRY.values())
+        # The registrations in the given namespace take precedence over the global ones,
+        # regardless of the registration order.
+        registry = {handler.type: handler for handler in handlers if handler.namespace == ''}
+        if namespace != '':
+            registry.update(
+                {handler.type: handler for handler in handlers if handler.namespace == namespace},
+            )
         if _C.is_dict_insertion_ordered(namespace):
             registry[dict] = _DICT_INSERTION_ORDERED_REGISTRY_ENTRY
             registry[defaultdict] = _DEFAULTDICT_INSERTION_ORDERED_REGISTRY_ENTRY
